@@ -10,6 +10,7 @@ def run(ctx):
     replay.replay_fconv(ctx, res)
     g.run_fsearch(ctx)
     g.run_funlink(ctx)
+    g.run_fleaf(ctx)
     ctx.standin("hist_rt", families=("OO", "II", "LF", "fs") if ctx.tier == "quick" else
                 ("OO", "II", "LF", "QQ", "fs", "IO", "UU", "LL", "OI", "IF"), args=["--mode", "twin"])
     return "other", (
